@@ -160,7 +160,15 @@ def register(R):
                ensures=sdca_post, raises={})
 
 
-ROOTS = ['s3transfer.tasks:CreateMultipartUploadTask._main', f'{UT}:get_filtered_dict', f'{M}:TransferManager._validate_all_known_args', f'{UT}:set_default_checksum_algorithm']
+ROOTS = ['s3transfer.upload:UploadSubmissionTask._submit_upload_request', 's3transfer.upload:UploadSubmissionTask._submit_multipart_request',
+         's3transfer.copies:CopySubmissionTask._submit', 's3transfer.copies:CopySubmissionTask._submit_copy_request',
+         's3transfer.copies:CopySubmissionTask._submit_multipart_request',
+         's3transfer.download:DownloadSubmissionTask._submit', 's3transfer.download:DownloadSubmissionTask._submit_download_request',
+         's3transfer.download:DownloadSubmissionTask._submit_ranged_download_request', 's3transfer.delete:DeleteSubmissionTask._submit',
+         's3transfer.upload:PutObjectTask._main', 's3transfer.upload:UploadPartTask._main', 's3transfer.copies:CopyObjectTask._main',
+         's3transfer.copies:CopyPartTask._main', 's3transfer.delete:DeleteObjectTask._main', 's3transfer.download:GetObjectTask._main',
+         's3transfer.tasks:CompleteMultipartUploadTask._main',
+         's3transfer.tasks:CreateMultipartUploadTask._main', f'{UT}:get_filtered_dict', f'{M}:TransferManager._validate_all_known_args', f'{UT}:set_default_checksum_algorithm']
 
 
 # ------------------------------------------------------------------------------------------ table
